@@ -5246,8 +5246,13 @@ class FlowIRConcrete(object):
 
         platform_environments = self.get_environments(platform)
 
+        # VV: Layer the contents of each platform environment on top of the same-named environment of the
+        # default platform (i.e. do exactly what get_environment() does for a primitive graph)
         environments = default_environments
-        environments.update(platform_environments)
+        for env_name in platform_environments:
+            layered = dict(environments.get(env_name) or {})
+            layered.update(platform_environments[env_name] or {})
+            environments[env_name] = layered
 
         global_variables = FlowIR.fill_in(
             global_variables, context=global_variables, flowir=self._flowir, ignore_errors=True,
